@@ -395,3 +395,32 @@ log_corrupt!(o15_2_log_corrupt_len4, 4);
 log_corrupt!(o15_2_log_corrupt_type6, 6);
 log_corrupt!(o15_2_log_corrupt_payload7, 7);
 log_corrupt!(o15_2_log_corrupt_payload8, 8);
+
+// ------------------------------------------------------------------ O13.4 block builder / reader (probe)
+macro_rules! block_cursor {
+    ($name:ident, $ri:expr, $fwd:expr) => {
+        #[kani::proof]
+        #[kani::unwind(22)]
+        #[kani::stub(alloc::fmt::format, stub_format)]
+        fn $name() {
+            let (k0, k1, t): (u8, u8, u8) = (kani::any(), kani::any(), kani::any());
+            let (s0, s1, ts): (u64, u64, u64) = (kani::any(), kani::any(), kani::any());
+            let (v0, v1): (u8, u8) = (kani::any(), kani::any());
+            kani::assume(s0 < (1 << 56) && s1 < (1 << 56) && ts < (1 << 56));
+            kani::assume(k0 < k1 || (k0 == k1 && s0 > s1));
+            let out = v::block_cursor($ri, &[(k0, s0, true, v0), (k1, s1, true, v1)], (t, ts), $fwd, 1);
+            // reference: position of the first entry >= (t, ts) in (user key asc, sequence desc) order
+            let ge = |k: u8, s: u64| k > t || (k == t && s <= ts);
+            let pos: usize = if ge(k0, s0) { 0 } else if ge(k1, s1) { 1 } else { 2 };
+            let ents = [(k0, s0, v0), (k1, s1, v1)];
+            assert!(out.len() == 2, "block does not parse");
+            assert!(out[0] == if pos < 2 { Some(ents[pos]) } else { None }, "seek does not land on the first entry >= target");
+            let after: Option<(u8, u64, u8)> = if pos == 2 { None } else if $fwd { if pos + 1 < 2 { Some(ents[pos + 1]) } else { None } } else { if pos == 0 { None } else { Some(ents[pos - 1]) } };
+            assert!(out[1] == after, "the step after the seek does not move to the neighbouring entry");
+            core::mem::forget(out);
+            kani::cover!(true, "end reached");
+        }
+    };
+}
+block_cursor!(o13_4_block_cursor_r1_fwd, 1, true);
+block_cursor!(o13_4_block_cursor_r16_bwd, 16, false);
